@@ -61,6 +61,9 @@ def gen(rng, tier):
         return len(actors) - 1
 
     W = new_actor("w")
+    if rng.random() < 0.15:
+        # gateway-level string coercion for user data; error texts are not user data
+        add(0, ["gw_reconfigure", gwi, rng.random() < 0.5, True], "ok")
     add(0, ["exec", "c0", W, gwi], "chan")
     local = []
     if mode == "body_late":
